@@ -227,7 +227,12 @@ type Prop struct {
 	// Replay re-executes a single recorded case and reports a violation on c if
 	// it reproduces.
 	Replay func(c *Ctx, cas json.RawMessage)
-	// Post runs in the orchestrator after merging (e.g. an external model checker).
+	// Pre runs in the orchestrator before the workers start (e.g. an external
+	// model checker whose state dump the workers replay). A returned error that
+	// starts with "VIOLATION" is reported as such; any other error marks the run
+	// incomplete. The returned counts are added to the evidence.
+	Pre func(tier string) (map[string]int64, error)
+	// Post runs in the orchestrator after merging.
 	Post func(tier string, merged *Result) error
 	// Par is the number of worker processes run concurrently (default 4).
 	Par int
@@ -483,6 +488,21 @@ func CheckMain(self, id, tier string) int {
 	os.MkdirAll(logDir, 0755)
 	merged := &Result{Exhaustive: true, Extra: map[string]int64{}}
 	st, oc, nt := map[uint64]struct{}{}, map[uint64]struct{}{}, map[uint64]struct{}{}
+	preViolation := ""
+	if p.Pre != nil {
+		extra, err := p.Pre(tier)
+		for k, v := range extra {
+			merged.Extra[k] += v
+		}
+		if err != nil {
+			if strings.HasPrefix(err.Error(), "VIOLATION") {
+				preViolation = err.Error()
+			} else {
+				merged.Exhaustive = false
+				merged.Notes = append(merged.Notes, "pre step: "+trunc(err.Error(), 500))
+			}
+		}
+	}
 	var mx sync.Mutex
 	var crashes []string
 	sem := make(chan struct{}, par)
@@ -543,6 +563,11 @@ func CheckMain(self, id, tier string) int {
 	var realViolations int64
 	for _, cr := range crashes {
 		fmt.Println(cr)
+		exit = 1
+		realViolations++
+	}
+	if preViolation != "" {
+		fmt.Println(preViolation)
 		exit = 1
 		realViolations++
 	}
